@@ -25,7 +25,7 @@ def main():
     for f in ("SEEDED.md",):
         if os.path.exists(os.path.join(mutdir, f)):
             shutil.copy(os.path.join(mutdir, f), os.path.join(out, f))
-    meta = dict(id=sid, property=prop, files=[l.split()[-1] for l in patch.splitlines() if l.startswith("+++ b/")], demo=[os.path.basename(f) for f in demos])
+    meta = dict(id=sid, property=prop, files=[l.split()[-1] for l in patch.splitlines() if l.startswith("+++ b/")], demo=[os.path.basename(f) for f in demos], demo_paths=demos)
     # confirm in a fresh scratch worktree
     conf = "/tmp/conf_" + sid
     sh(["git", "-C", "/repo", "worktree", "remove", "--force", conf])
